@@ -279,10 +279,14 @@ func readDir(dir string) []FileJ {
 	return out
 }
 
+// nbytes prints a byte slice as a list of N (the scope key keeps the case
+// file's default scope nat, so that the verdict list prints as plain pairs).
+func nbytes(b []byte) string { return hx.Bytes(b) + "%N" }
+
 func dirCoq(fs []FileJ) string {
 	items := make([]string, len(fs))
 	for i, f := range fs {
-		items[i] = fmt.Sprintf("Fi %s %d %s", coretree.Str(f.Name), f.Perm, hx.Bytes(f.Data))
+		items[i] = fmt.Sprintf("Fi %s %d %s", coretree.Str(f.Name), f.Perm, nbytes(f.Data))
 	}
 	return hx.List(items)
 }
@@ -427,7 +431,7 @@ func runOnce(c Case, bl *baseline) (out outcome) {
 	}
 	data := newData(c)
 	out.coq = fmt.Sprintf("AC %s %s %d %s %s %s %d %s %s",
-		coretree.Str(filesystem.TemporaryNamePrefix), coretree.Str(c.Target), perm, hx.Bytes(data),
+		coretree.Str(filesystem.TemporaryNamePrefix), coretree.Str(c.Target), perm, nbytes(data),
 		dirCoq(before), hx.List(ob.events), code, dirCoq(after), hx.List(scannedCoq))
 	out.nontrivial = ob.hitInside > 0
 	out.tags = append(out.tags, "mode:"+c.Mode, fmt.Sprintf("exit:%d", code), fmt.Sprintf("faults-hit:%d", ob.hitInside))
@@ -545,7 +549,7 @@ func main() {
 	if _, err := exec.LookPath("strace"); err != nil {
 		panic("strace is not available: the C27 tie cannot run")
 	}
-	header := "From Coq Require Import List Arith NArith String.\nImport ListNotations.\nFrom Mv Require Import Common.Bytes Model.AtomicWrite Harness.AtomicWriteH.\nOpen Scope string_scope.\nOpen Scope N_scope."
+	header := "From Coq Require Import List Arith NArith String.\nImport ListNotations.\nFrom Mv Require Import Common.Bytes Model.AtomicWrite Harness.AtomicWriteH.\nOpen Scope string_scope."
 	w := hx.NewWriter(cfg, header, "acase", "atomic_failures", 250)
 	w.Rule = "a case = one run of the real WriteFileAtomic/MarshalAndSaveProtobuf in a child process under strace injection: (prefix constant, target, mode bits, new data, directory before, primitives issued with status, exit, directory after, names core.Scan shows); distinct = distinct Coq terms (temporary names are random, so repeated configurations are distinct terms); non-trivial = at least one injected fault or kill hit a primitive of the write"
 
